@@ -175,7 +175,7 @@ def check_property(pid, tier, seed):
                 "traces_validated_against_impl": agg["scenarios"],
                 "samples": samples,
                 "evaluations": agg["scenarios"] + sum(r.get("evaluations", 0) for r in mc_runs),
-                "distinct_nontrivial": len({json.dumps(meta[s].get("sig", s), sort_keys=True) for s in meta}) if meta else 0,
+                "distinct_nontrivial": len({json.dumps(meta[s].get("sig", s), sort_keys=True, default=str) for s in meta}) if meta else 0,
                 "rule": spec.get("rule", "") + " | distinct_nontrivial counts scenarios with distinct generator signatures; "
                         "monitor activity: %d command transactions, %d event transactions, %d output units matched" % (agg["txns"], agg["evs"], agg["units"]),
                 "exhaustive": all(r.get("exhaustive", False) for r in mc_runs) if mc_runs else False,
